@@ -17,7 +17,7 @@ import (
 func init() { registerLeg("c14-interleave", "C14", legC14Interleave) }
 
 func legC14Interleave(c *Ctx) {
-	c.Rule("real makeDeadline, clock period 1 ms: the clock is started, stopped (StopTimeoutClock or natural exit is not needed: a stop leaves `current` stale) and left idle for longer than the timeout; then call B is parked at scheduling point 1 (after its unlocked loads of clockEnd and current), call A runs to completion (refreshes and restarts the clock), B is released; also the symmetric orders (A parked, B complete; both parked, released in either order) and 3 calls, and two calls whose timeouts differ by 3 s taking the lock in either order; checked: clockEnd covers every deadline handed out; every returned deadline lies at least its timeout (minus the clock lag: 25 ms + stalls measured by a heartbeat goroutine) after the TRUE time at which the call was released; timeouts {5,20,80} ms x idle gaps max(100 ms, {3x,10x} timeout); non-trivial = every scenario")
+	c.Rule("real makeDeadline, clock period 1 ms: the clock is started, stopped (StopTimeoutClock or natural exit is not needed: a stop leaves `current` stale) and left idle for longer than the timeout; then call B is parked at scheduling point 1 (after its unlocked loads of clockEnd and current), call A runs to completion (refreshes and restarts the clock), B is released; also the symmetric orders (A parked, B complete; both parked, released in either order) and 3 calls, and two calls whose timeouts differ by 3 s taking the lock in either order; checked: clockEnd covers every deadline handed out; every returned deadline lies at least its timeout (minus the clock lag: 25 ms + stalls measured by a heartbeat goroutine) after the TRUE time at which the call was released; timeouts {5,20,80} ms x idle gaps max(100 ms, {3x,10x} timeout); also: continuation scans (FindNextMatch after an idle gap of 3x timeout + 100 ms; ReplaceFunc whose evaluator sleeps 2x timeout per match) must not report a timeout; non-trivial = every scenario")
 	c14ClockMu.Lock() // the timeout clock is one process-wide object: never share it with leg c14-clock
 	defer c14ClockMu.Unlock()
 	regexp2.SetTimeoutCheckPeriod(time.Millisecond)
@@ -188,5 +188,52 @@ func legC14Interleave(c *Ctx) {
 			}
 		}
 	}
+	// continuation scans: every scan — also the ones FindNextMatch, the find-all calls, Replace, ReplaceFunc and Split
+	// start after the first match — gets its own deadline: a quick continuation after an idle gap longer than the
+	// timeout, or inside an operation that as a whole takes longer than the timeout, must not report a timeout
+	conts := 0
+	for _, d := range []time.Duration{5 * time.Millisecond, 20 * time.Millisecond} {
+		re := regexp2.MustCompile(`\d+`)
+		re.MatchTimeout = d
+		const text = "a1b22c333d4444"
+		cs := &Case{Desc: fmt.Sprintf("continuation scans with MatchTimeout=%v", d), Nontrivial: true, Key: fmt.Sprint("cont", d), Class: "continuation"}
+		fail := func(f string, a ...any) {
+			if cs.Direct == "" {
+				cs.Direct = fmt.Sprintf(f, a...)
+			}
+		}
+		gap := 3*d + 100*time.Millisecond
+		m, err := re.FindStringMatch(text)
+		for k := 0; m != nil && err == nil && k < 4; k++ {
+			time.Sleep(gap)
+			t0 := time.Now()
+			m, err = re.FindNextMatch(m)
+			conts++
+			if err != nil {
+				fail("FindNextMatch %d after an idle gap of %v took %v and reported: %v", k, gap, time.Since(t0), err)
+			}
+		}
+		if err != nil && cs.Direct == "" {
+			fail("FindStringMatch: %v", err)
+		}
+		t0 := time.Now()
+		out, err := re.ReplaceFunc(text, func(m regexp2.Match) string { time.Sleep(2 * d); return "#" }, -1, -1)
+		conts++
+		if err != nil || out != "a#b#c#d#" {
+			fail("ReplaceFunc whose evaluator sleeps 2x the timeout per match (every scan itself takes microseconds) returned %q, %v after %v", out, err, time.Since(t0))
+		}
+		runes := []rune(text)
+		rm, err := re.FindRunesMatch(runes)
+		for k := 0; rm != nil && err == nil && k < 2; k++ {
+			time.Sleep(gap)
+			rm, err = re.FindNextMatch(rm)
+			conts++
+			if err != nil {
+				fail("FindNextMatch %d (rune input) after an idle gap of %v reported: %v", k, gap, err)
+			}
+		}
+		c.Add(cs)
+	}
+	c.Gate("continuation scans ran", conts >= 10)
 	c.Gate("interleaving scenarios ran", ran >= 16)
 }
